@@ -65,6 +65,243 @@ reg(Spec(
               "knot vectors"))
 
 
+# ----------------------------------------------------------------------- C02
+
+
+def c02_runs(tier, seed):
+    n = q(tier, 16000, 1200000)
+    runs = [RunSpec("eval", "Q", "plain", n), RunSpec("eval", "d", "plain", n)]
+    if tier == "thorough":
+        runs += [RunSpec("eval", "f", "plain", n // 2),
+                 RunSpec("eval", "ld", "plain", n // 2),
+                 RunSpec("eval", "d", "nochk", n // 2)]
+    return runs
+
+
+reg(Spec(
+    "C02", "evaluation == value of the stored piecewise polynomial", c02_runs,
+    rule=("case k -> order k mod 7, window stratum (k div 7) mod 8 (whole "
+          "grid, one interval, last interval, empty, point-like, suffix, two "
+          "random sub-windows) on a generated grid of 2..12 points with general "
+          "coefficients. Abscissae per spline: every point of the WHOLE grid, "
+          "every midpoint, 8 random points in the grid range, both support "
+          "ends +- the smallest step (nextafter for floating types, 2^-40 for "
+          "Q), +-1000 outside, 0 and -0. Oracle: outside the closed support the "
+          "result is exactly zero; inside it equals the model value of a piece "
+          "whose closed interval contains x (either neighbour at a shared grid "
+          "point); front()/back() return the window's end points bit-exactly "
+          "and throw BSplineException for an empty support. Non-trivial: "
+          "non-zero spline with at least one inside evaluation; distinct by "
+          "(order, window, grid, coefficients)."),
+    required=["window:whole-grid", "window:one-interval",
+              "window:last-interval", "window:empty", "window:point-like",
+              "window:suffix-window", "window:sub-window", "x:grid-point",
+              "x:just-outside-left", "x:just-outside-right",
+              "x:just-inside-left", "x:just-inside-right", "x:far-outside",
+              "frontback:empty-throws", "frontback:ends-checked"] +
+             ["order:%d" % p for p in range(7)],
+    assumptions=[DYADIC, MODEL, "NaN abscissae are not judged; for a "
+                 "point-like support front()/back() may return the point or "
+                 "throw"],
+    evaluations=["inside-checked", "outside-checked"],
+    technique="runtime monitor: reference-model oracle over generated "
+              "splines and boundary-focused abscissae"))
+
+# ----------------------------------------------------------------------- C04
+
+
+def c04_runs(tier, seed):
+    n = q(tier, 60000, 3000000)
+    runs = [RunSpec("ops", "Q", "plain", n), RunSpec("ops", "d", "plain", n)]
+    if tier == "thorough":
+        runs += [RunSpec("ops", "f", "plain", n // 3),
+                 RunSpec("ops", "ld", "plain", n // 3)]
+    return runs
+
+
+reg(Spec(
+    "C04", "primitive operators are d^n/dx^n and x^n on every interval",
+    c04_runs,
+    rule=("case k -> spline order k mod 7, n = (k div 7) mod 9 (0..8, so "
+          "n = order and n = order+1 occur for every order), operator kind "
+          "(Dx, X, identity) from a compiled catalogue of 133 instantiations; "
+          "grid of 2..9 points (exact: offsets up to 2^20, width ratios up to "
+          "2^10; floating: 1/16 lattice in [-8,8]), window whole / empty / "
+          "point-like / last interval / random sub-window, general "
+          "coefficients. Oracle: denote(op*s) == model derivative / x^n * "
+          "polynomial on every interval of the whole grid, result window == "
+          "operand window, identity result == operand. Non-trivial: non-zero "
+          "operand; distinct by (operator, order, window, grid, "
+          "coefficients)."),
+    required=["op:Dx%d" % i for i in range(9)] +
+             ["op:X%d" % i for i in range(9)] + ["op:Identity0"] +
+             ["order:%d" % p for p in range(7)] +
+             ["boundary:n==order", "boundary:n==order+1", "window:empty",
+              "window:point-like", "window:sub-window", "window:last-interval"],
+    assumptions=[DYADIC, MODEL],
+    evaluations="applied",
+    technique="runtime monitor: reference-model oracle over a compiled "
+              "catalogue of operator instantiations and generated operands"))
+
+# ------------------------------------------------- pool machine: C03/10/14/15
+PLACEMENTS = ["EQ", "A_IN_B", "B_IN_A", "PARTIAL_L", "PARTIAL_R", "TOUCH",
+              "GAP", "A_EMPTY", "B_EMPTY", "BOTH_EMPTY", "A_POINT", "B_POINT"]
+POOL_RULE = ("one case = one history of 150 steps over a pool of 15 splines "
+             "(orders 0..4, three slots each, on a grid of 6..10 points held in "
+             "two equal instances, plus one spline per order on a logically "
+             "different cousin grid). A step is drawn from 45 kinds: + - * += -= "
+             "(operands re-seeded in one of 12 relative placements half of the "
+             "time), c*a a*c a/c -a *= /= (also with the scalar aliasing an own "
+             "coefficient), construct / copy / move / self-assign / self-move / "
+             "destroy / empty / point-like, cross-order assignment, Dx X identity "
+             "and spline-factor applications, linearCombination over 1..6 members "
+             "(incl. interval-free and point-like), predicates, and 11 kinds of "
+             "calls that must be refused. After every step: deep bit-level "
+             "snapshots of all objects are compared outside the step's write "
+             "set, every live object is walked through its public accessors, "
+             "and results are compared with the shadow model on every interval "
+             "of the whole grid. ")
+POOL_NT = ("Non-trivial/distinct: arithmetic steps whose operands all denote "
+           "non-zero functions, hashed over (kind, orders, windows, grid, "
+           "coefficients).")
+
+
+def pool_runs(tier, seed, flavours=("plain",), scalars=("Q", "d")):
+    nq = q(tier, 480, 40000)
+    nd = q(tier, 640, 60000)
+    runs = []
+    for fl in flavours:
+        for sc in scalars:
+            runs.append(RunSpec("pool", sc, fl, nq if sc == "Q" else nd))
+    return runs
+
+
+def c03_runs(tier, seed):
+    runs = pool_runs(tier, seed)
+    if tier == "thorough":
+        runs += [RunSpec("pool", "f", "plain", 20000),
+                 RunSpec("pool", "ld", "plain", 20000),
+                 RunSpec("pool", "Q", "nochk", 6000, defines=("MAXO=6",),
+                         params={"steps": 120})]
+    return runs
+
+
+reg(Spec(
+    "C03", "spline arithmetic == pointwise arithmetic of denotations",
+    c03_runs,
+    rule=POOL_RULE + "C03 oracle: denote(result) == model_op(shadows of the "
+         "operands) as polynomials on every interval of the whole grid "
+         "(equality for Q, C16 bound for floating types); the shadow of an "
+         "in-place target is updated by the model so drift over a history is "
+         "caught. " + POOL_NT,
+    required=["place:add:" + p for p in PLACEMENTS] +
+             ["place:mul:" + p for p in PLACEMENTS] +
+             ["place:add-assign:" + p for p in PLACEMENTS] +
+             ["c03:checked:" + k for k in (
+                 "add", "sub", "mul", "add-assign", "sub-assign", "scalar-left",
+                 "scalar-right", "scalar-div", "negate", "mul-assign",
+                 "div-assign", "mul-assign-alias", "cross-order-assign",
+                 "linear-combination")],
+    assumptions=[DYADIC, MODEL, "orders 0..4 in the pool (0..6 thorough); "
+                 "products up to order 8 are checked but not stored"],
+    evaluations=["c03:checked:" + k for k in (
+        "add", "sub", "mul", "add-assign", "sub-assign", "scalar-left",
+        "scalar-right", "scalar-div", "negate", "mul-assign", "div-assign",
+        "mul-assign-alias", "cross-order-assign", "linear-combination")],
+    technique="runtime monitor: shadow-model oracle over generated operation "
+              "histories (pool machine)"))
+
+
+def c10_runs(tier, seed):
+    runs = [RunSpec("pool", "Q", "plain", q(tier, 320, 30000)),
+            RunSpec("pool", "d", "nochk", q(tier, 640, 60000))]
+    if tier == "thorough":
+        runs += [RunSpec("pool", "d", "plain", 40000),
+                 RunSpec("pool", "Q", "nochk", 6000, defines=("MAXO=6",),
+                         params={"steps": 120})]
+    return runs
+
+
+reg(Spec(
+    "C10", "class invariants survive every history", c10_runs,
+    rule=POOL_RULE + "C10 oracle: invariant walk over all live objects after "
+         "every step through the public API only (grid >= 2 strictly "
+         "increasing points; window (0,0) or start<end<=grid size; "
+         "size/empty/containsIntervals/numberOfIntervals/iteration/front/back/"
+         "at/[] agree; one coefficient array per interval); moved-from objects "
+         "must be interval-free on the same grid and are re-used as targets "
+         "and operands; in the 'plain' flavour the repository's own "
+         "BSPLINE_ADD_TEST_CHECKS entry checks run as well (an exception or "
+         "terminate from an accessor of a live object is a violation). "
+         + POOL_NT,
+    required=["c10:objects-walked", "c10:moved-from-checked",
+              "step:move-construct", "step:move-assign", "step:self-assign",
+              "step:self-move", "step:cross-order-assign",
+              "step:construct-empty", "step:construct-point", "step:destroy",
+              "step:fail-add-assign", "step:fail-ctor-count",
+              "step:fail-lincomb", "step:fail-factor"],
+    assumptions=["histories of 150 steps over 15+5 objects; orders 0..4 "
+                 "(0..6 thorough)", "self-move-assignment is exercised except "
+                 "under the checked-STL flavour, where libstdc++ itself "
+                 "forbids it for std::vector"],
+    evaluations="c10:objects-walked",
+    technique="runtime monitor: invariant walk at quiescent points (after "
+              "every step of generated histories) + the library's own "
+              "self-check hooks"))
+
+
+def c14_runs(tier, seed):
+    return pool_runs(tier, seed, flavours=("nochk",)) + (
+        [RunSpec("pool", "d", "plain", 40000)] if tier == "thorough" else [])
+
+
+reg(Spec(
+    "C14", "value semantics: operands and earlier results are never disturbed",
+    c14_runs,
+    rule=POOL_RULE + "C14 oracle: a deep snapshot (grid object identity, grid "
+         "point bit patterns, window, every coefficient bit pattern) of every "
+         "pool object is taken before each step and compared afterwards; "
+         "everything outside the declared write set (the target of an in-place "
+         "operator or assignment, both sides of a move, nothing for any other "
+         "call and nothing for a call that throws) must be bit-identical; the "
+         "vectors behind the two shared grids never change. " + POOL_NT,
+    required=["c14:bystanders-compared", "step:fail-add-assign",
+              "step:fail-sub-assign", "step:copy-construct",
+              "step:copy-assign", "step:mul-assign", "step:add-assign"],
+    assumptions=["histories of 150 steps; orders 0..4"],
+    evaluations="c14:bystanders-compared",
+    technique="runtime monitor: before/after deep snapshots of every live "
+              "object around every step (frame condition checker)"))
+
+
+def c15_runs(tier, seed):
+    return pool_runs(tier, seed)
+
+
+reg(Spec(
+    "C15", "predicates tell the truth", c15_runs,
+    rule=POOL_RULE + "C15 oracle: isZero() <=> the exact denotation is the "
+         "zero function; a.checkOverlap(b) (both directions) <=> the windows "
+         "share an interval, and <=> the product has an interval; a==b <=> "
+         "same window (or both empty) and coefficient-wise equal on equal "
+         "grids, never equal across logically different grids; == reflexive, "
+         "symmetric, true for copies, != its negation; for supports and grids "
+         "as well. " + POOL_NT,
+    required=["pred:isZero:true", "pred:isZero:false", "pred:eq:true",
+              "pred:eq:false", "pred:support-eq"] +
+             ["pred:overlap:%s:%s" % (p, t) for p, t in (
+                 ("EQ", "true"), ("A_IN_B", "true"), ("B_IN_A", "true"),
+                 ("PARTIAL_L", "true"), ("PARTIAL_R", "true"),
+                 ("TOUCH", "false"), ("GAP", "false"), ("A_EMPTY", "false"),
+                 ("B_EMPTY", "false"), ("BOTH_EMPTY", "false"),
+                 ("A_POINT", "false"), ("B_POINT", "false"))],
+    assumptions=["NaN coefficients and checkOverlap across different grids "
+                 "are not judged"],
+    evaluations="step:predicates",
+    technique="runtime monitor: predicate results compared with the shadow "
+              "model and with window arithmetic over generated histories"))
+
+
 # --------------------------------------------------------------------- setup
 
 
